@@ -1084,21 +1084,22 @@ def c13_stub_run(w):
         payload = property(lambda s: None if s._k == 0 else (b"" if s._k == 1 else b"P%d.%d.%d" % tuple(s.key)))
 
     class Reader(MeterReaderBase):
-        def __init__(self, r, calls):
-            self.r, self.calls, self.n = r, calls, 0
+        def __init__(self, r, calls, clock):
+            self.r, self.calls, self.clock = r, calls, clock
         is_in_hunt_mode = property(lambda s: True)
 
         def read(self, data):
-            c = self.n
-            self.n += 1
+            c = self.clock[0]             # plan[r][c] = what reader r makes of the c-th chunk (a candidate that is not fed a chunk loses it)
             return [Msg([self.r, c, i], bool(m[0]), m[1]) for i, m in enumerate(self.calls[c])]
     loop = asyncio.new_event_loop()
     asyncio.set_event_loop(loop)
     try:
         q = asyncio.Queue()
         cls = mc.SmartMeterMessagePayloadProtocol if w["proto"] == "payload" else mc.SmartMeterMessageProtocol
-        p = cls(q, [Reader(r, calls) for r, calls in enumerate(w["plan"])])
+        clock = [0]
+        p = cls(q, [Reader(r, calls, clock) for r, calls in enumerate(w["plan"])])
         for c in range(len(w["plan"][0])):
+            clock[0] = c
             p.data_received(b"chunk")
         got = []
         while not q.empty():
